@@ -275,9 +275,15 @@ func (s *ServerSession) doAck(stream *Stream) error {
 	return nil
 }
 func (s *ServerSession) doUserControl(stream *Stream) error {
-	// TODO(chef): 检查buff长度有效性 202301
-	userControlType := bele.BeUint16(stream.msg.buff.Bytes())
+	buf := stream.msg.buff.Bytes()
+	if len(buf) < 2 {
+		return base.NewErrRtmpShortBuffer(2, len(buf), "ServerSession::doUserControl")
+	}
+	userControlType := bele.BeUint16(buf)
 	if userControlType == uint16(base.RtmpUserControlPingRequest) {
+		if len(buf) < 6 {
+			return base.NewErrRtmpShortBuffer(6, len(buf), "ServerSession::doUserControl ping request")
+		}
 		stream.msg.buff.Skip(2)
 		timestamp := bele.BeUint32(stream.msg.buff.Bytes())
 		return s.packer.writePingResponse(s.conn, timestamp)
